@@ -625,6 +625,16 @@ def source_tags(net):
                         tags.add("npu-box-batch>1")
                 elif any(batch4(net.tensors[t].shape) > 1 or len(net.tensors[t].shape) < 4 for t in o.outputs):
                     tags.add("npu-box-batch>1")
+        # round 5 (rank sweep): legal attribute values three lowerings mishandle (repairs C13-50, C13-51, C01-47 pending)
+        if o.kind == "UNPACK" and int(opts.get("Axis", 0)) < 0:
+            tags.add("unpack-negative-axis")
+        if o.kind == "SLICE" and len(o.inputs) > 2 and net.tensors[o.inputs[2]].data is not None and \
+                (np.asarray(net.tensors[o.inputs[2]].data).reshape(-1) == -1).any():
+            tags.add("slice-size-minus-one")
+        if o.kind == "FULLY_CONNECTED" and opts.get("KeepNumDims"):
+            osh = net.tensors[o.outputs[0]].shape
+            if len(osh) == 4 and osh[0] > 1:
+                tags.add("fc-keep-num-dims-rank4-batch>1")
         if o.kind == "LEAKY_RELU" and net.tensors[o.inputs[0]].dtype == "int16" and float(opts.get("Alpha", 0.0)) < 0:
             # lowered to MIN, int32 MUL by the (negative) quantised multiplier, RELU, ADD: the MUL is handed to the register
             # generator with a negative OFM scale (C06 finding int16-lrelu-negative-alpha-negative-ofm-scale, repair C16-20)
@@ -640,5 +650,16 @@ BUILDERS = {"lut_mixed": lut_mixed, "shape_out": shape_out, "transpose_perm": tr
             "fc1_two_core": fc1_two_core}
 
 
+# pattern -> (module, builder) of the families defined outside this file
+EXTERNAL = {"near_scale": ("gen_nearscale", "near_scale"), "multi_out_cpu": ("gen_multiout", "multi_out_cpu"),
+            "slice_masks": ("gen_ssmask", "slice_masks"), "rank_sweep": ("gen_ranksweep", "rank_sweep")}
+
+
 def build(rng, idx, pattern, variant=None):
+    if pattern not in BUILDERS and pattern in EXTERNAL:
+        # families that live in their own modules (imported lazily)
+        import importlib
+
+        mod, fn = EXTERNAL[pattern]
+        BUILDERS[pattern] = getattr(importlib.import_module(mod), fn)
     return BUILDERS[pattern](rng, idx, variant)
